@@ -518,6 +518,10 @@ func (i *IniParser) parse(ini *ini) error {
 
 	var quotesLookup = make(map[*Option]bool)
 
+	// Options given a value by this file while parsing as defaults; they stay
+	// open for further entries of the same file
+	var iniDefaults []*Option
+
 	for _, name := range ini.order {
 		section := ini.Sections[name]
 		groups := i.matchingGroups(name)
@@ -610,7 +614,11 @@ func (i *IniParser) parse(ini *ini) error {
 			}
 
 			// Defaults from ini files take precendence over defaults from parser
-			opt.preventDefault = true
+			if i.ParseAsDefaults {
+				iniDefaults = append(iniDefaults, opt)
+			} else {
+				opt.preventDefault = true
+			}
 
 			// either all INI values are quoted or only values who need quoting
 			if _, ok := quotesLookup[opt]; !inival.Quoted || !ok {
@@ -619,6 +627,10 @@ func (i *IniParser) parse(ini *ini) error {
 
 			opt.tag.Set("_read-ini-name", inival.Name)
 		}
+	}
+
+	for _, opt := range iniDefaults {
+		opt.preventDefault = true
 	}
 
 	for opt, quoted := range quotesLookup {
